@@ -437,10 +437,11 @@ class access:
         The Serial rule applies to a an open branch *b* when there is a world *w*
         that appears on *b*, but there is no world *w'* such that *w* accesses *w'*.
 
-        The exception to this is when the Serial rule was the last rule to apply to
-        the branch. This prevents infinite repetition of the Serial rule for open
-        branches that are otherwise finished. For this reason, the Serial rule is
-        ordered last in the rules, so that all other rules are checked before it.
+        The rule only applies for a world *w* that carries a sentence. A world
+        introduced by the Serial rule itself carries none until another rule puts
+        one there, which prevents infinite repetition of the Serial rule for open
+        branches that are otherwise finished. The Serial rule is ordered last in
+        the rules, so that all other rules are checked before it.
 
         For a node *n* on an open branch *b* on which appears a world *w* for
         which there is no world *w'* on *b* such that *w* accesses *w'*, add a
@@ -454,22 +455,15 @@ class access:
             if not self._should_apply(branch):
                 return
             for w in self[UnserialWorlds][branch]:
+                if not branch.has({Node.Key.world: w}):
+                    # Only worlds that carry a sentence need a successor.
+                    continue
                 yield Target(adds(
                     group(anode(w, branch.new_world())),
                     world=w,
                     branch=branch))
 
         def _should_apply(self, branch: Branch,/):
-            try:
-                entry = next(reversed(self.tableau.history))
-            except StopIteration:
-                pass
-            else:
-                # This tends to stop modal explosion better than the max worlds check,
-                # at least in its current form (all modal operators + worlds + 1).
-                if entry.rule == self and entry.target.branch == branch:
-                    return False
-            # As above, this is unnecessary
             if self[MaxWorlds].is_exceeded(branch):
                 return False
             return True
